@@ -267,6 +267,390 @@ theorem parseRegex_simF {s1 s2 : PState} (h : SR c s1 s2) :
     · intro _
       exact parseRegexSkip_simF hc hs' (by rw [peekSt_n]; exact hn0)
 
+theorem parseNumberLit_simF (lit : Str) (q1 q2 : Pos) {s1 s2 : PState} (h : SR c s1 s2) :
+    wpF (parseNumberLit lit q1) (parseNumberLit lit q2) s1 s2 (fun a b t1 t2 => a = b ∧ SR c t1 t2) := by
+  unfold parseNumberLit
+  generalize (2 ^ 1024 - 2 ^ 970 : Nat) = K
+  split
+  dsimp only
+  repeat' (apply wpF_ite <;> intro _)
+  all_goals first
+    | exact wpF_failAt _ _ _ _ _ _
+    | exact wpF_pure _ _ _ _ _ ⟨rfl, h⟩
+
+theorem parseIntegerLit_simF (lit : Str) (q1 q2 : Pos) {s1 s2 : PState} (h : SR c s1 s2) :
+    wpF (parseIntegerLit lit q1) (parseIntegerLit lit q2) s1 s2 (fun a b t1 t2 => a = b ∧ SR c t1 t2) := by
+  unfold parseIntegerLit
+  split
+  dsimp only
+  repeat' (apply wpF_ite <;> intro _)
+  all_goals first
+    | exact wpF_failAt _ _ _ _ _ _
+    | exact wpF_pure _ _ _ _ _ ⟨rfl, h⟩
+
+/-- The `switch lit := lit.(type)` after a unary sign. -/
+theorem signMatch_simF (cnd : Prop) [Decidable cnd] (mul : Int) (lit : Expr) {s1 s2 : PState} (h : SR c s1 s2) :
+    wpF
+      (match lit with
+        | .number v => pure (.number (if cnd then { v with neg := !v.neg } else v))
+        | .integer v => pure (.integer (wrap64 (v * mul)))
+        | .unsigned v =>
+          if cnd then
+            if v = 9223372036854775808 then pure (.integer minInt64)
+            else failPlain ("constant -".toList ++ natDigits v ++ " underflows int64".toList)
+          else pure (.unsigned v)
+        | .duration v => pure (.duration (wrap64 (v * mul)))
+        | .varRef .. | .call .. | .paren .. => pure (.binary .MUL (.integer mul) lit)
+        | _ => throw (.panic "unexpected literal".toList) : P Expr)
+      (match lit with
+        | .number v => pure (.number (if cnd then { v with neg := !v.neg } else v))
+        | .integer v => pure (.integer (wrap64 (v * mul)))
+        | .unsigned v =>
+          if cnd then
+            if v = 9223372036854775808 then pure (.integer minInt64)
+            else failPlain ("constant -".toList ++ natDigits v ++ " underflows int64".toList)
+          else pure (.unsigned v)
+        | .duration v => pure (.duration (wrap64 (v * mul)))
+        | .varRef .. | .call .. | .paren .. => pure (.binary .MUL (.integer mul) lit)
+        | _ => throw (.panic "unexpected literal".toList) : P Expr)
+      s1 s2 (fun a b t1 t2 => a = b ∧ SR c t1 t2) := by
+  cases lit
+  all_goals first
+    | exact wpF_pure _ _ _ _ _ ⟨rfl, h⟩
+    | exact wpF_throw_same _ _ _ _
+    | (dsimp only
+       repeat' (apply wpF_ite <;> intro _)
+       all_goals first
+         | exact wpF_pure _ _ _ _ _ ⟨rfl, h⟩
+         | exact wpF_failPlain _ _ _ _)
+
+end
+
+/-! ## the expression parser -/
+
+def ISimE (c : ICtx) (F1 F2 : Nat) : Prop :=
+  ∀ s1 s2, SK c s1 s2 → wpF (parseExpr F1) (parseExpr F2) s1 s2 (fun a b t1 t2 => a = b ∧ SR c t1 t2)
+def ISimL (c : ICtx) (F1 F2 : Nat) : Prop :=
+  ∀ s1 s2 root, SR c s1 s2 →
+    wpF (exprLoop F1 root) (exprLoop F2 root) s1 s2 (fun a b t1 t2 => a = b ∧ SR c t1 t2)
+def ISimU (c : ICtx) (F1 F2 : Nat) : Prop :=
+  ∀ s1 s2, SK c s1 s2 →
+    wpF (parseUnaryExpr F1) (parseUnaryExpr F2) s1 s2 (fun a b t1 t2 => a = b ∧ SR c t1 t2)
+def ISimC (c : ICtx) (F1 F2 : Nat) : Prop :=
+  ∀ s1 s2 name, SR c s1 s2 →
+    wpF (parseCall F1 name) (parseCall F2 name) s1 s2 (fun a b t1 t2 => a = b ∧ SR c t1 t2)
+def ISimA (c : ICtx) (F1 F2 : Nat) : Prop :=
+  ∀ s1 s2 name args, SR c s1 s2 →
+    wpF (callArgs F1 name args) (callArgs F2 name args) s1 s2 (fun a b t1 t2 => a = b ∧ SR c t1 t2)
+
+theorem sk_of_regex {c : ICtx} {a : Option Expr} {t1 t2 : PState}
+    (h : SR c t1 t2 ∨ (a = none ∧ Skew c t1 t2)) : SK c t1 t2 :=
+  h.elim Or.inl (fun h => Or.inr h.2)
+
+theorem sr_of_regex_some {c : ICtx} {re : Expr} {t1 t2 : PState}
+    (h : SR c t1 t2 ∨ (some re = none ∧ Skew c t1 t2)) : SR c t1 t2 := by
+  rcases h with h | ⟨h, _⟩
+  · exact h
+  · cases h
+
+section
+variable {c : ICtx} (hc : c.OK)
+include hc
+
+omit hc in
+theorem simE_stepF (F1 F2 : Nat) (ihU : ISimU c F1 F2) (ihL : ISimL c F1 F2) : ISimE c (F1 + 1) (F2 + 1) := by
+  intro s1 s2 h
+  rw [parseExpr, parseExpr]
+  apply wpF_bind
+  refine wpF_mono (ihU s1 s2 h) ?_
+  intro a b t1 t2 ⟨hab, hs⟩
+  subst hab
+  exact ihL t1 t2 a hs
+
+theorem simL_stepF (F1 F2 : Nat) (ihU : ISimU c F1 F2) (ihL : ISimL c F1 F2) : ISimL c (F1 + 1) (F2 + 1) := by
+  intro s1 s2 root h
+  rw [exprLoop, exprLoop]
+  apply wpF_bind
+  refine wpF_mono (scanIW_simF hc (Or.inl h)) ?_
+  intro o1 o2 t1 t2 ⟨hl, hs⟩
+  rw [← hl.1]
+  apply wpF_ite
+  · intro _
+    apply wpF_bind
+    apply wpF_unscan
+    exact wpF_pure _ _ _ _ _ ⟨rfl, hs.unsc⟩
+  · intro _
+    dsimp only
+    apply wpF_ite
+    · intro _
+      apply wpF_bind
+      refine wpF_mono (parseRegex_simF hc hs) ?_
+      intro x y u1 u2 ⟨hxy, hsk⟩
+      subst hxy
+      cases x with
+      | some re =>
+        dsimp only
+        apply wpF_bind
+        apply wpF_pure
+        exact ihL u1 u2 _ (sr_of_regex_some hsk)
+      | none =>
+        dsimp only
+        apply wpF_bind
+        refine wpF_mono (scanIW_simF hc (sk_of_regex hsk)) ?_
+        intro l1 l2 w1 w2 ⟨hl2, _⟩
+        apply wpF_bind
+        exact wpF_failFound hl2 _ _ _ _
+    · intro _
+      apply wpF_bind
+      refine wpF_mono (ihU t1 t2 (Or.inl hs)) ?_
+      intro x y u1 u2 ⟨hxy, hu⟩
+      subst hxy
+      exact ihL u1 u2 _ hu
+
+theorem simA_stepF (F1 F2 : Nat) (ihE : ISimE c F1 F2) (ihA : ISimA c F1 F2) : ISimA c (F1 + 1) (F2 + 1) := by
+  intro s1 s2 name args h
+  rw [callArgs, callArgs]
+  apply wpF_bind
+  refine wpF_mono (scanIW_simF hc (Or.inl h)) ?_
+  intro l1 l2 t1 t2 ⟨hl, hs⟩
+  rw [← hl.1]
+  apply wpF_ite
+  · intro _
+    apply wpF_bind
+    apply wpF_unscan
+    apply wpF_bind
+    refine wpF_mono (pscan_simF hc (Or.inl hs.unsc)) ?_
+    intro c1 c2 u1 u2 ⟨hcl, hu, _⟩
+    dsimp only
+    rw [← hcl.1]
+    apply wpF_ite
+    · intro _
+      apply wpF_bind
+      exact wpF_failFound hcl _ _ _ _
+    · intro _
+      exact wpF_pure _ _ _ _ _ ⟨rfl, hu⟩
+  · intro _
+    apply wpF_bind
+    refine wpF_mono (parseRegex_simF hc hs) ?_
+    intro x y u1 u2 ⟨hxy, hsk⟩
+    subst hxy
+    cases x with
+    | some re =>
+      dsimp only
+      exact ihA u1 u2 name _ (sr_of_regex_some hsk)
+    | none =>
+      dsimp only
+      apply wpF_bind
+      refine wpF_mono (ihE u1 u2 (sk_of_regex hsk)) ?_
+      intro x y w1 w2 ⟨hxy, hw⟩
+      subst hxy
+      exact ihA w1 w2 name _ hw
+
+theorem simC_stepF (F1 F2 : Nat) (ihE : ISimE c F1 F2) (ihA : ISimA c F1 F2) : ISimC c (F1 + 1) (F2 + 1) := by
+  intro s1 s2 name h
+  rw [parseCall, parseCall]
+  apply wpF_bind
+  apply wpF_get
+  dsimp only
+  rw [← h.lower]
+  apply wpF_bind
+  refine wpF_mono (parseRegex_simF hc h) ?_
+  intro x y t1 t2 ⟨hxy, hsk⟩
+  subst hxy
+  cases x with
+  | some re =>
+    dsimp only
+    exact ihA t1 t2 _ _ (sr_of_regex_some hsk)
+  | none =>
+    dsimp only
+    apply wpF_bind
+    refine wpF_mono (pscan_simF hc (sk_of_regex hsk)) ?_
+    intro l1 l2 u1 u2 ⟨hl, hu, _⟩
+    rw [← hl.1]
+    apply wpF_ite
+    · intro _
+      exact wpF_pure _ _ _ _ _ ⟨rfl, hu⟩
+    · intro _
+      apply wpF_bind
+      apply wpF_unscan
+      apply wpF_bind
+      refine wpF_mono (ihE _ _ (Or.inl hu.unsc)) ?_
+      intro a b w1 w2 ⟨hab, hw⟩
+      subst hab
+      exact ihA w1 w2 _ _ hw
+
+theorem simU_stepF (F1 F2 : Nat) (ihE : ISimE c F1 F2) (ihU : ISimU c F1 F2) (ihC : ISimC c F1 F2) :
+    ISimU c (F1 + 1) (F2 + 1) := by
+  intro s1 s2 h
+  rw [parseUnaryExpr, parseUnaryExpr]
+  apply wpF_bind
+  refine wpF_mono (scanIW_simF hc h) ?_
+  intro a1 a2 t1 t2 ⟨ha, hs⟩
+  rw [← ha.1]
+  apply wpF_ite
+  · intro _
+    apply wpF_bind
+    refine wpF_mono (ihE t1 t2 (Or.inl hs)) ?_
+    intro e1 e2 u1 u2 ⟨he, hu⟩
+    subst he
+    apply wpF_bind
+    refine wpF_mono (scanIW_simF hc (Or.inl hu)) ?_
+    intro c1 c2 w1 w2 ⟨hcl, hw⟩
+    dsimp only
+    rw [← hcl.1]
+    apply wpF_ite
+    · intro _
+      apply wpF_bind
+      exact wpF_failFound hcl _ _ _ _
+    · intro _
+      exact wpF_pure _ _ _ _ _ ⟨rfl, hw⟩
+  · intro _
+    apply wpF_bind
+    apply wpF_unscan
+    apply wpF_bind
+    refine wpF_mono (scanIW_simF hc (Or.inl hs.unsc)) ?_
+    intro l1 l2 u1 u2 ⟨hl, hu⟩
+    rw [← hl.1, ← hl.2]
+    generalize hk : l1.tok = k
+    cases k with
+    | IDENT =>
+      dsimp only
+      apply wpF_bind
+      refine wpF_mono (pscan_simF hc (Or.inl hu)) ?_
+      intro m1 m2 w1 w2 ⟨hm, hw, _⟩
+      rw [← hm.1]
+      apply wpF_ite
+      · intro _; exact ihC w1 w2 _ hw
+      · intro _
+        apply wpF_bind
+        apply wpF_unscan
+        apply wpF_bind
+        apply wpF_unscan
+        exact parseVarRef_simF hc (Or.inl hw.unsc.unsc)
+    | DISTINCT =>
+      dsimp only
+      apply wpF_bind
+      refine wpF_mono (pscan_simF hc (Or.inl hu)) ?_
+      intro m1 m2 w1 w2 ⟨hm, hw, _⟩
+      rw [← hm.1]
+      apply wpF_ite
+      · intro _; exact ihC w1 w2 _ hw
+      · intro _
+        apply wpF_ite
+        · intro _
+          apply wpF_bind
+          refine wpF_mono (scanIW_simF hc (Or.inl hw)) ?_
+          intro v1 v2 x1 x2 ⟨hv, hx⟩
+          rw [← hv.1, ← hv.2]
+          apply wpF_ite
+          · intro _
+            apply wpF_bind
+            exact wpF_failFound hv _ _ _ _
+          · intro _
+            exact wpF_pure _ _ _ _ _ ⟨rfl, hx⟩
+        · intro _
+          exact wpF_failFound hm _ _ _ _
+    | STRING => exact wpF_pure _ _ _ _ _ ⟨rfl, hu⟩
+    | NUMBER => exact parseNumberLit_simF hc _ _ _ hu
+    | INTEGER => exact parseIntegerLit_simF hc _ _ _ hu
+    | TRUE => exact wpF_pure _ _ _ _ _ ⟨rfl, hu⟩
+    | FALSE => exact wpF_pure _ _ _ _ _ ⟨rfl, hu⟩
+    | DURATIONVAL =>
+      dsimp only
+      cases parseDuration l1.lit with
+      | ok v => exact wpF_pure _ _ _ _ _ ⟨rfl, hu⟩
+      | error e => exact wpF_failPlain _ _ _ _
+    | MUL =>
+      dsimp only
+      apply wpF_bind
+      refine wpF_mono (pscan_simF hc (Or.inl hu)) ?_
+      intro m1 m2 w1 w2 ⟨hm, hw, _⟩
+      rw [← hm.1]
+      apply wpF_ite
+      · intro _
+        apply wpF_bind
+        refine wpF_mono (pscan_simF hc (Or.inl hw)) ?_
+        intro v1 v2 x1 x2 ⟨hv, hx, _⟩
+        rw [← hv.1]
+        apply wpF_ite
+        · intro _; exact wpF_pure _ _ _ _ _ ⟨rfl, hx⟩
+        · intro _; exact wpF_failFound hv _ _ _ _
+      · intro _
+        apply wpF_bind
+        apply wpF_unscan
+        exact wpF_pure _ _ _ _ _ ⟨rfl, hw.unsc⟩
+    | REGEX => exact wpF_pure _ _ _ _ _ ⟨rfl, hu⟩
+    | BOUNDPARAM =>
+      dsimp only
+      apply wpF_ite
+      · intro _; exact wpF_failPlain _ _ _ _
+      · intro _
+        apply wpF_bind
+        apply wpF_get
+        try dsimp only
+        rw [hu.p1, hu.p2]
+        cases lookupParam (trimDollar l1.lit) c.params <;> exact wpF_failPlain _ _ _ _
+    | ADD =>
+      dsimp only
+      apply wpF_bind
+      refine wpF_mono (scanIW_simF hc (Or.inl hu)) ?_
+      intro m1 m2 w1 w2 ⟨hm, hw⟩
+      rw [← hm.1]
+      apply wpF_ite
+      · intro _
+        apply wpF_bind
+        apply wpF_unscan
+        apply wpF_bind
+        refine wpF_mono (ihU _ _ (Or.inl hw.unsc)) ?_
+        intro x y z1 z2 ⟨hxy, hz⟩
+        subst hxy
+        exact signMatch_simF hc _ _ x hz
+      · intro _; exact wpF_failFound hm _ _ _ _
+    | SUB =>
+      dsimp only
+      apply wpF_bind
+      refine wpF_mono (scanIW_simF hc (Or.inl hu)) ?_
+      intro m1 m2 w1 w2 ⟨hm, hw⟩
+      rw [← hm.1]
+      apply wpF_ite
+      · intro _
+        apply wpF_bind
+        apply wpF_unscan
+        apply wpF_bind
+        refine wpF_mono (ihU _ _ (Or.inl hw.unsc)) ?_
+        intro x y z1 z2 ⟨hxy, hz⟩
+        subst hxy
+        exact signMatch_simF hc _ _ x hz
+      · intro _; exact wpF_failFound hm _ _ _ _
+    | _ => exact wpF_failFound hl _ _ _ _
+
+/-- **Lock-step simulation of the expression parser** on a template and on the text with the
+literal written out, for any two fuel values. -/
+theorem expr_simF (F1 : Nat) : ∀ F2, ISimE c F1 F2 ∧ ISimL c F1 F2 ∧ ISimU c F1 F2 ∧ ISimC c F1 F2 ∧ ISimA c F1 F2 := by
+  induction F1 with
+  | zero =>
+    intro F2
+    refine ⟨?_, ?_, ?_, ?_, ?_⟩
+    · intro s1 s2 _; rw [parseExpr]; exact wpF_fuel_left _ _ _ _
+    · intro s1 s2 r _; rw [exprLoop]; exact wpF_fuel_left _ _ _ _
+    · intro s1 s2 _; rw [parseUnaryExpr]; exact wpF_fuel_left _ _ _ _
+    · intro s1 s2 n _; rw [parseCall]; exact wpF_fuel_left _ _ _ _
+    · intro s1 s2 n a _; rw [callArgs]; exact wpF_fuel_left _ _ _ _
+  | succ F1 ih =>
+    intro F2
+    cases F2 with
+    | zero =>
+      refine ⟨?_, ?_, ?_, ?_, ?_⟩
+      · intro s1 s2 _; rw [parseExpr.eq_1]; exact wpF_fuel_right _ _ _ _
+      · intro s1 s2 r _; rw [exprLoop.eq_1]; exact wpF_fuel_right _ _ _ _
+      · intro s1 s2 _; rw [parseUnaryExpr.eq_1]; exact wpF_fuel_right _ _ _ _
+      · intro s1 s2 n _; rw [parseCall.eq_1]; exact wpF_fuel_right _ _ _ _
+      · intro s1 s2 n a _; rw [callArgs.eq_1]; exact wpF_fuel_right _ _ _ _
+    | succ F2 =>
+      obtain ⟨ihE, ihL, ihU, ihC, ihA⟩ := ih F2
+      exact ⟨simE_stepF F1 F2 ihU ihL, simL_stepF hc F1 F2 ihU ihL, simU_stepF hc F1 F2 ihE ihU ihC,
+        simC_stepF hc F1 F2 ihE ihA, simA_stepF hc F1 F2 ihE ihA⟩
+
 end
 
 end InfluxQL
